@@ -15,7 +15,7 @@ def run(pid, tier, seed):
     q = tier == "quick"
     exe = vlib.build_harness("threads", ["threads.cxx"])
     exe_tsan = vlib.build_harness("threads", ["threads.cxx"], cfg="tsan")
-    tdir = os.path.join(vlib.BUILD, "traces")
+    tdir = vlib.trace_dir()
     os.makedirs(tdir, exist_ok=True)
     recs = []
     plan = [(2, "plain"), (4, "tsan"), (8, "plain"), (16, "tsan")] if q else \
